@@ -26,7 +26,8 @@ RULE = (
     "then re-runs a changed schedule with fix+trim. bad_copy: values whose deep copy is not equal to them "
     "(identity __eq__, lossy __deepcopy__, and values that deepcopy returns unchanged but that are not equal to "
     "themselves: float nan, Decimal NaN, a class of that kind), also nested in containers: the comparison must raise UsageError and "
-    "the site must stay unwritten. non-trivial = a mutation happens after a comparison whose operand would "
+    "the site must stay unwritten. nocopy: a value for which copy.deepcopy raises (it holds a lock) is compared and "
+    "mutated afterwards: whatever the comparison does, the mutated state must never be written. non-trivial = a mutation happens after a comparison whose operand would "
     "otherwise be recorded (the mutated variable was compared before)."
 )
 ASSUMPTIONS = ["== sites only see equal values (steps that would contradict an earlier observation are dropped by the generator)"]
@@ -280,7 +281,39 @@ def check_bad(case):
     return {"nontrivial": True, "classes": [case["cls"], op], "sample": {"before": src, "after": text}}
 
 
+# ----------------------------------------------------------------------------- values that cannot be copied
+
+
+@st.composite
+def _nocopy_case(draw, tier):
+    return {"op": draw(st.sampled_from(["eq", "in", "le", "getitem"])), "n": draw(st.integers(0, 5)),
+            "prev": draw(st.sampled_from([False, True])), "flags": draw(st.sampled_from([["create"], ["create", "fix"]]))}
+
+
+def check_nocopy(case):
+    """a value for which copy.deepcopy raises: either the comparison raises and nothing is recorded, or what
+    is recorded is the value at comparison time - never the value after a later mutation"""
+    op, n = case["op"], case["n"]
+    prev = {"eq": "Locky([0])", "in": "[Locky([0])]", "le": "", "getitem": "{'k': Locky([0])}"}[op] if case["prev"] else ""
+    cmp = {"eq": "v == snapshot(%s)", "in": "v in snapshot(%s)", "le": "v.items <= snapshot(%s)",
+           "getitem": "v == snapshot(%s)['k']"}[op] % prev
+    src = ("from inline_snapshot import snapshot\nfrom vf_prelude import *\n\nLOG = []\n\n\ndef test_a():\n"
+           f"    v = Locky([1, {n}])\n    try:\n        LOG.append({cmp})\n    except Exception as e:\n"
+           "        LOG.append(type(e).__name__)\n    v.items.append(99)\n")
+    ses = drivers.run_inline({"test_a.py": src}, set(case["flags"]))
+    if not ses.ok():
+        err = ses.exec_error or ses.collect_error or ses.apply_error
+        raise Violation(f"session-exception:{type(err).__name__}", f"{type(err).__name__}: {err}\n{src}")
+    log = ses.globals["test_a.py"]["LOG"]
+    text = ses.files_after["test_a.py"].decode()
+    if "99" in oracles.site_arg_texts(text)[0]:
+        raise Violation("mutation-after-comparison-recorded",
+                        f"the value was mutated after the comparison and the mutated state was written (LOG={log})\n{text}")
+    return {"nontrivial": True, "classes": ["nocopy", op, str(log[0])], "sample": {"before": src, "after": text}}
+
+
 ARMS = [
+    HypArm("nocopy", _nocopy_case, check_nocopy, budget={"quick": 64, "thorough": 600}),
     HypArm("schedule", lambda tier: _case(tier), check_schedule, budget={"quick": 2400, "thorough": 100000},
            shards={"quick": 8, "thorough": 48}),
     HypArm("bad_copy", lambda tier: _bad_case(tier), check_bad, budget={"quick": 300, "thorough": 3000}),
